@@ -22,6 +22,9 @@ mod wrapping;
 
 mod subcommands;
 
+#[cfg(dandavison_delta_verif)]
+mod verif_hooks;
+
 mod tests;
 
 use std::ffi::{OsStr, OsString};
@@ -58,6 +61,10 @@ pub mod errors {
 
 #[cfg(not(tarpaulin_include))]
 fn main() -> std::io::Result<()> {
+    #[cfg(dandavison_delta_verif)]
+    if let Some(code) = verif_hooks::dispatch() {
+        process::exit(code);
+    }
     // Do this first because both parsing all the input in `run_app()` and
     // listing all processes takes about 50ms on Linux.
     // It also improves the chance that the calling process is still around when
